@@ -157,7 +157,7 @@ def predict_refusal(mode, debug=False):
     return {'err': 'raise', 'msg': 'msg', None: 'silent'}[mode]
 
 
-def check_refused(ctx, out, mode, text_re, key, wit):
+def check_refused(ctx, out, mode, text_re, key, wit, wrong_msg=''):
     """A refusal must take the form the explain_* option prescribes."""
     if mode == 'err':
         if out.returned or type(out.exc).__name__ != 'InvalidInput' or not re.search(text_re, str(out.exc)):
@@ -171,9 +171,10 @@ def check_refused(ctx, out, mode, text_re, key, wit):
         ctx.violation(key + ':' + str(mode) + ':graded', 'refusal expected, got %r' % (r,), wit)
     elif mode == 'msg' and not re.search(text_re, r['msg']):
         ctx.violation(key + ':msg:text', 'message missing: %r' % (r,), wit)
-    elif mode is None and lib.strip_debug(r['msg']) != '' and not ('<pre>MITx Grading Library' in r['msg'] and re.search(text_re, r['msg'])):
+    elif mode is None and lib.strip_debug(r['msg']) != wrong_msg and not ('<pre>MITx Grading Library' in r['msg'] and re.search(text_re, r['msg'])):
+        # a silent refusal is an ordinary wrong answer: the grader's OWN wrong_msg (if any) and nothing else
         # (with debug=True the library deliberately attaches the explanation to the silent refusal, before the log)
-        ctx.violation(key + ':None:text', 'silent refusal expected: %r' % (r,), wit)
+        ctx.violation(key + ':None:text', 'silent refusal expected (own wrong_msg %r): %r' % (wrong_msg, r), wit)
 
 
 def check_accept_any(ctx, rng):
@@ -199,6 +200,8 @@ def check_accept_any(ctx, rng):
     if rng.random() < 0.15:
         cfg['debug'] = True             # the debug log changes nothing about how a refusal is delivered
         ctx.count('debug_cases')
+    if rng.random() < 0.4:
+        cfg['wrong_msg'] = 'WM%d' % rng.randint(0, 999)
     g = StringGrader(**cfg)
     out = lib.call(ctx, g, None, sub)
     ctx.ev()
@@ -213,7 +216,7 @@ def check_accept_any(ctx, rng):
             ctx.violation('C18:accept_any:refuses_sufficient', 'meets the minimums but %r' % (out.brief(),), wit)
     else:
         ctx.count('minimum_refused')
-        check_refused(ctx, out, mode, r'too short', 'C18:accept_any:insufficient_not_refused', wit)
+        check_refused(ctx, out, mode, r'too short', 'C18:accept_any:insufficient_not_refused', wit, cfg.get('wrong_msg', ''))
 
 
 PATTERNS = [
@@ -260,10 +263,19 @@ def check_pattern(ctx, rng):
         cfg['debug'] = True
         ctx.count('debug_cases')
     expect = rng.choice(good)
+    min_mode, min_length = None, 0
     if accept_any:
         cfg['accept_any'] = True
+        if rng.random() < 0.5:
+            # minimums configured as well, announced differently: a pattern mismatch is still refused the explain_validation way
+            min_length = rng.randint(1, 6)
+            min_mode = rng.choice([m_ for m_ in ('err', 'msg', None) if m_ != mode])
+            cfg.update(min_length=min_length, explain_minimums=min_mode)
+            ctx.count('pattern_with_minimum_cases')
     else:
         cfg['answers'] = expect
+    if rng.random() < 0.4:
+        cfg['wrong_msg'] = 'WM%d' % rng.randint(0, 999)
     if ambiguous(sub, flags):
         return
     try:
@@ -290,7 +302,11 @@ def check_pattern(ctx, rng):
     if not matches:
         ctx.count('pattern_refused')
         key = 'C18:pattern:partial_match_accepted:' + kind if partial else 'C18:pattern:nonmatch_not_refused'
-        check_refused(ctx, out, mode, r'BAD FORMAT', key + (':accept_any' if accept_any else ':answers'), wit)
+        check_refused(ctx, out, mode, r'BAD FORMAT', key + (':accept_any' if accept_any else ':answers'), wit, cfg.get('wrong_msg', ''))
+        return
+    if accept_any and len(cs) < min_length:
+        ctx.count('minimum_refused')
+        check_refused(ctx, out, min_mode, r'too short', 'C18:pattern:matching_but_too_short', wit, cfg.get('wrong_msg', ''))
         return
     # matches the whole cleaned text: must be graded normally
     want = True if accept_any else (cs == ref_clean(expect, **flags))
@@ -298,7 +314,7 @@ def check_pattern(ctx, rng):
         ctx.violation('C18:pattern:match_refused', 'matches entirely but %r' % (out.brief(),), wit)
         return
     got = out.value['grade_decimal'] == 1
-    if got != want or (not got and lib.strip_debug(out.value['msg']) != ''):
+    if got != want or (not got and lib.strip_debug(out.value['msg']) != cfg.get('wrong_msg', '')):
         ctx.violation('C18:pattern:match_misgraded', 'expected %s, got %r' % (want, out.value), wit)
 
 
